@@ -1396,7 +1396,11 @@ class Template:
         as for the :meth:`new_context` method.
         """
         ctx = self.new_context(vars, shared, locals)
-        return TemplateModule(self, ctx)
+
+        try:
+            return TemplateModule(self, ctx)
+        except Exception:
+            return self.environment.handle_exception()
 
     async def make_module_async(
         self,
@@ -1410,11 +1414,15 @@ class Template:
         becomes unavailable in async mode.
         """
         ctx = self.new_context(vars, shared, locals)
-        return TemplateModule(
-            self,
-            ctx,
-            [x async for x in self.root_render_func(ctx)],  # type: ignore
-        )
+
+        try:
+            return TemplateModule(
+                self,
+                ctx,
+                [x async for x in self.root_render_func(ctx)],  # type: ignore
+            )
+        except Exception:
+            return self.environment.handle_exception()
 
     @internalcode
     def _get_default_module(self, ctx: Context | None = None) -> "TemplateModule":
